@@ -18,26 +18,20 @@ theorem apple_sumOther {r : Run} {B : Group} (sh : AppleShape r B) (sub : Sub) :
   rw [hf]
   rfl
 
-def K1a (r : Run) (s : St) (B : Group) : Prop :=
-  NoErr s → (s.sub.needs baseName ≤ 0 ∨ s.sub.needs baseName ≤ (uns r s B.logs : Int))
+def K1a (r : Run) (s : St) (bad : Log → Bool) (B : Group) : Prop :=
+  ErrIn bad s → (s.sub.needs baseName ≤ 0 ∨ s.sub.needs baseName ≤ (uns r s bad B.logs : Int))
 
-theorem k1a_init {r : Run} {B : Group} (wf : WF r) (sh : AppleShape r B) (hB : B.min ≤ B.logs.length) :
-    K1a r (St.init r) B := by
+theorem k1a_init {r : Run} {B : Group} (bad : Log → Bool) (wf : WF r) (sh : AppleShape r B)
+    (hB : B.min ≤ (B.logs.filter (fun l => !bad l)).length) : K1a r (St.init r) bad B := by
   intro _
-  have hu : uns r (St.init r) B.logs = B.logs.length := by
-    unfold uns
-    congr 1
-    rw [List.filter_eq_self]
-    intro l _
-    simp [answeredB, St.init]
   have hmem : B ∈ r.cfg := by simp [sh.cfg_eq]
   have n3 := init_needs wf.names_nodup hmem
   rw [sh.nB] at n3
   refine Or.inr ?_
-  rw [hu]; show (Sub.init r.cfg).needs baseName ≤ _; rw [n3]; exact hB
+  rw [uns_init]; show (Sub.init r.cfg).needs baseName ≤ _; rw [n3]; exact hB
 
-theorem k1a_step {r : Run} {s s' : St} {B : Group} (wf : WF r) (sh : AppleShape r B) (hi : Inv r s)
-    (hk : K1a r s B) (o : Op) (hs : step r s o = some s') : K1a r s' B := by
+theorem k1a_step {r : Run} {s s' : St} {B : Group} (bad : Log → Bool) (wf : WF r) (sh : AppleShape r B) (hi : Inv r s)
+    (hk : K1a r s bad B) (o : Op) (hs : step r s o = some s') : K1a r s' bad B := by
   by_cases hsr : ∃ g l ok, o = .setResult g l ok
   · obtain ⟨g, l, ok, rfl⟩ := hsr
     obtain ⟨ha0, ha1, harest⟩ := answeredB_setResult hi g l ok hs
@@ -45,14 +39,22 @@ theorem k1a_step {r : Run} {s s' : St} {B : Group} (wf : WF r) (sh : AppleShape 
     have hempty := (hi.owner g l hinf).1
     intro hne'
     cases ok
-    · exfalso
-      rw [setResult_err] at hp
+    · rw [setResult_err] at hp
       cases hp
-      exact hne' l (by rw [hsub]; simp [upd])
+      have hbl : bad l = true := hne' l (by rw [hsub]; simp [upd])
+      have hne : ErrIn bad s := by
+        intro l' herr
+        by_cases he : l' = l
+        · subst he; rw [hempty] at herr; cases herr
+        · exact hne' l' (by rw [hsub]; simp [upd, he]; exact herr)
+      have hu : uns r s' bad B.logs = uns r s bad B.logs := uns_other (Or.inl hbl) harest
+      have hn : s'.sub.needs = s.sub.needs := by rw [hsub]
+      rw [hn, hu]
+      exact hk hne
     · obtain ⟨p1, cs⟩ := p
       obtain ⟨h1, h2, h3, h4, h5⟩ := setResult_ok_spec hp
       have hsub1 : s'.sub = p1 := hsub
-      have hne : NoErr s := by
+      have hne : ErrIn bad s := by
         intro l' herr
         by_cases he : l' = l
         · subst he; rw [hempty] at herr; cases herr
@@ -69,65 +71,49 @@ theorem k1a_step {r : Run} {s s' : St} {B : Group} (wf : WF r) (sh : AppleShape 
         simp only [groupsOf, List.mem_map, List.mem_filter, decide_eq_true_eq]
         exact ⟨B, ⟨hmem, hlB⟩, sh.nB⟩
       have hb0 := h1 baseName
-      have uB : uns r s B.logs = uns r s' B.logs + 1 := uns_answer sh.ndB hlB ha0 ha1 harest
       rw [hsub1]
-      by_cases hkeep : p1.needs baseName = s.sub.needs baseName ∧ 0 < s.sub.needs baseName
-      · obtain ⟨_, hsum⟩ := setResult_ok_base_kept hp hgl hempty hkeep.1 hkeep.2
+      have hkept : p1.needs baseName = s.sub.needs baseName → ¬ 0 < s.sub.needs baseName := by
+        intro hk1 hk2
+        obtain ⟨_, hsum⟩ := setResult_ok_base_kept hp hgl hempty hk1 hk2
         rw [apple_sumOther sh] at hsum
         omega
-      · omega
+      cases hb : bad l
+      · have uB : uns r s bad B.logs = uns r s' bad B.logs + 1 := uns_answer sh.ndB hlB hb ha0 ha1 harest
+        by_cases hk1 : p1.needs baseName = s.sub.needs baseName
+        · have := hkept hk1; omega
+        · omega
+      · have uB : uns r s' bad B.logs = uns r s bad B.logs := uns_other (Or.inl hb) harest
+        by_cases hk1 : p1.needs baseName = s.sub.needs baseName
+        · have := hkept hk1; omega
+        · omega
   · have hno : ∀ g l ok, o ≠ .setResult g l ok := fun g l ok he => hsr ⟨g, l, ok, he⟩
-    have hans := answeredB_step hi o hs hno
-    have hle := step_needs_le o hs baseName
-    have herr : ∀ l, s.sub.results l = some .err → s'.sub.results l = some .err := by
-      cases o with
-      | setResult g l ok => exact absurd rfl (hno g l ok)
-      | request g l =>
-        simp only [step] at hs
-        split at hs
-        case isFalse => cases hs
-        have hr : ∀ l', s.sub.results l' = some .err → (request r.cfg s.sub l).1.results l' = some .err := by
-          intro l' he
-          rw [request_results]
-          split
-          · rename_i hc; rw [hc.1] at he; rw [hc.2] at he; cases he
-          · exact he
-        split at hs <;> cases hs <;> exact hr
-      | timerFire g l => simp only [step] at hs; split at hs <;> cases hs; exact fun _ h => h
-      | abort g l => simp only [step] at hs; split at hs <;> cases hs; exact fun _ h => h
-      | groupDone g => simp only [step] at hs; split at hs <;> cases hs; exact fun _ h => h
-      | recv g =>
-        simp only [step] at hs
-        split at hs
-        · split at hs <;> cases hs; exact fun _ h => h
-        · cases hs
-      | ctxDone => simp only [step] at hs; split at hs <;> cases hs; exact fun _ h => h
-      | collect => simp only [step] at hs; split at hs <;> cases hs; exact fun _ h => h
+    obtain ⟨hn, herr, hans⟩ := step_other hi o hs hno
     intro hne'
-    have hne : NoErr s := fun l he => hne' l (herr l he)
-    have hu : uns r s' B.logs = uns r s B.logs := uns_congr _ (fun l _ => hans l)
-    rw [hu]
-    rcases hk hne with h | h
-    · exact Or.inl (Int.le_trans hle h)
-    · exact Or.inr (Int.le_trans hle h)
+    have hne : ErrIn bad s := fun l he => hne' l (herr l he)
+    have hu : uns r s' bad B.logs = uns r s bad B.logs := uns_congr _ (fun l _ _ => hans l)
+    rw [hn, hu]
+    exact hk hne
 
-theorem k1a_exec {r : Run} {B : Group} (wf : WF r) (sh : AppleShape r B) : ∀ (ops : List Op) {s : St},
-    Inv r s → Live r s → K1a r s B → Inv r (exec r s ops) ∧ Live r (exec r s ops) ∧ K1a r (exec r s ops) B
+theorem k1a_exec {r : Run} {B : Group} (bad : Log → Bool) (wf : WF r) (sh : AppleShape r B) : ∀ (ops : List Op) {s : St},
+    Inv r s → Live r s → K1a r s bad B → Inv r (exec r s ops) ∧ Live r (exec r s ops) ∧ K1a r (exec r s ops) bad B
   | [], _, hi, hl, hk => ⟨hi, hl, hk⟩
   | o :: os, s, hi, hl, hk => by
     unfold exec
     cases hs : step r s o with
-    | none => simpa using k1a_exec wf sh os hi hl hk
-    | some s' => simpa using k1a_exec wf sh os (inv_step wf hi o hs) (live_step hi hl o hs) (k1a_step wf sh hi hk o hs)
+    | none => simpa using k1a_exec bad wf sh os hi hl hk
+    | some s' => simpa using k1a_exec bad wf sh os (inv_step wf hi o hs) (live_step hi hl o hs) (k1a_step bad wf sh hi hk o hs)
 
-theorem apple_all_complete {r : Run} {B : Group} (wf : WF r) (sh : AppleShape r B)
-    (hsess : ∀ g ∈ r.cfg, ∀ l ∈ g.logs, l ∈ r.session g.name) (hB : B.min ≤ B.logs.length) (ops : List Op)
-    (hctx : (exec r (St.init r) ops).ctx = false) (hne : NoErr (exec r (St.init r) ops))
-    (hfin : ∀ g ∈ names r.cfg, ∀ l ∈ r.session g, (exec r (St.init r) ops).gor g l = .finished) :
+theorem apple_all_complete {r : Run} {B : Group} (bad : Log → Bool) (wf : WF r) (sh : AppleShape r B)
+    (hsess : ∀ g ∈ r.cfg, ∀ l ∈ g.logs, l ∈ r.session g.name)
+    (hB : B.min ≤ (B.logs.filter (fun l => !bad l)).length) (ops : List Op)
+    (hctx : (exec r (St.init r) ops).ctx = false) (hne : ErrIn bad (exec r (St.init r) ops))
+    (hfin : ∀ g ∈ names r.cfg, ∀ l ∈ r.session g, (exec r (St.init r) ops).gor g l = .finished ∨
+      ((exec r (St.init r) ops).gor g l = .inflight ∧ bad l = true)) :
     ∀ g ∈ r.cfg, (exec r (St.init r) ops).sub.needs g.name ≤ 0 := by
-  obtain ⟨hi, hl, hk⟩ := k1a_exec wf sh ops (inv_init wf) (live_init r) (k1a_init wf sh hB)
+  obtain ⟨hi, hl, hk⟩ := k1a_exec bad wf sh ops (inv_init wf) (live_init r) (k1a_init bad wf sh hB)
   generalize exec r (St.init r) ops = s at *
   have kB := hk hne
+  have key := waiting_group_all_answered bad hi hl hsess hctx hfin
   have hmem : B ∈ r.cfg := by simp [sh.cfg_eq]
   intro g hg
   rw [sh.cfg_eq] at hg
@@ -137,31 +123,7 @@ theorem apple_all_complete {r : Run} {B : Group} (wf : WF r) (sh : AppleShape r 
   | false => exact Int.not_lt.mp (of_decide_eq_false hd)
   | true =>
     have hpos := of_decide_eq_true hd
-    have hz : uns r s g.logs = 0 := by
-      unfold uns
-      rw [List.length_eq_zero_iff, List.filter_eq_nil_iff]
-      intro l hlX
-      have hXn : g.name ∈ names r.cfg := List.mem_map_of_mem (f := (·.name)) hmem
-      have hls := hsess g hmem l hlX
-      have hf := hfin g.name hXn l hls
-      have hres := hl.k2 hctx g hmem l hls hf hpos
-      have hgl : g.name ∈ groupsOf r.cfg l := by
-        simp only [groupsOf, List.mem_map, List.mem_filter, decide_eq_true_eq]
-        exact ⟨g, ⟨hmem, hlX⟩, rfl⟩
-      have hsub : l ∈ s.submitted := by
-        cases hd2 : decide (l ∈ s.submitted) with
-        | true => exact of_decide_eq_true hd2
-        | false =>
-          have := hl.k3 l hres (of_decide_eq_false hd2) g.name hgl
-          omega
-      have : answeredB r s l = true := by
-        rw [answeredB_iff]
-        refine ⟨hsub, fun g' hg' hin => ?_⟩
-        have hact := hi.active g' l (by rw [hin]; simp)
-        have := hfin g' hg' l hact.2
-        rw [hin] at this
-        cases this
-      simp [this]
+    have := key g hmem hpos
     rw [sh.nB] at hpos ⊢
     omega
 
